@@ -163,6 +163,12 @@ func (C09) growth(tp *tape.Tape) core.Result {
 		return out
 	}
 	forBody := withTail(body, false)
+	if tp.Draw(5) == 0 {
+		// a for body that is an else-less conditional return (never taken here): legal for for loops in
+		// every position (for a value-producing while the pinned compiler refuses it, DESIGN 5.3)
+		forBody = append(append([]string{}, body...), "if i == 1000 {\nreturn 7\n}")
+		r.Inc("growth.for_body_ends_in_conditional_return", 1)
+	}
 	r.Inc("growth.tail."+shapeOf(trunc(tail, 12)), 1)
 	var def, call1, call2, topLoop string
 	switch kind {
